@@ -29,8 +29,8 @@ class C06(Prop):
     ]
 
     def harness(self, ctx):
-        obs = {"scripted": [], "lingering": [], "transport": []}
-        for name in ("Scripted", "Lingering", "Transport"):
+        obs = {"scripted": [], "lingering": [], "transport": [], "keepalive": []}
+        for name in ("Scripted", "Lingering", "Transport", "KeepAlive"):
             rc, out, p, dt = C.go_test_overlay(ctx.work, "./agent/utils/", "TestVerifC06" + name + "$", OVERLAY, "c06_%s.jsonl" % name.lower(), ctx.seed, ctx.tier, timeout=1200)
             rows = C.read_jsonl(p)
             if rc != 0 or not rows:
@@ -90,6 +90,16 @@ class C06(Prop):
                 if a["acked"] and a["complete"] and not a["body_ok"]:
                     tag = "lingering-reader" if early else "sequential"
                     res.append(("acked-incomplete:%s" % tag, "scenario %s: acknowledged attempt %d does not carry the complete response (%d upload bytes)" % (c["name"], i + 1, a["upload_len"]), rp))
+        for r in obs.get("keepalive", []):
+            rp = {"driver": "NewResponseForwarder over the real http.Transport against a keep-alive fault server whose script is per request (answer = read the body, answer, keep the connection; close = close without answering)",
+                  "case": {k: r.get(k) for k in ("name", "size", "script")}, "requests_seen_by_the_proxy": r.get("requests_seen"), "handler_returned": r.get("handler_returned"), "close_err": r.get("close_err")}
+            if r.get("error"):
+                res.append(("transport-harness-error", r["error"], rp))
+                continue
+            if not r["handler_returned"]:
+                res.append(("handler-left-blocked", "handler did not return in keep-alive scenario %s" % r["name"], rp))
+            if r["n_requests"] > 3:
+                res.append(("too-many-attempts", "the proxy saw %d upload requests in keep-alive scenario %s (limit 1 + maxWriteResponseRetryCount = 3)" % (r["n_requests"], r["name"]), rp))
         return res
 
     def model_check(self, ctx, obs):
@@ -144,6 +154,8 @@ class C06(Prop):
                     plens[e["plen"]] += 1
         for r in obs["transport"]:
             hist["transport:" + r["case"]["name"]] += 1
+        for r in obs.get("keepalive", []):
+            hist["keepalive:" + r.get("name", "?")] += 1
         allc = obs["scripted"] + obs["lingering"] + obs["transport"]
         distinct = {C.case_hash(r["case"]) for r in allc if (r["case"].get("script"))}
         return {"evaluations": len(allc), "distinct_nontrivial": len(distinct),
